@@ -90,16 +90,17 @@ def o1(W, ob):
     v = W.fn(B + '::validate_player_handle')
     Gv = W.guards(v)
     errs = [s for f2, s in W.constructions('GgrsError', 'InvalidRequest') if f2 is v]
-    ob.require_count(len(errs), 3, 'range rules in validate_player_handle')
+    # counted per rejecting path (disjunct of the guards of the error constructions): three `return Err` sites and one site behind a match-selected flag are the same rules
+    disj = [c for s in errs for c in Gv.guard(s.bb)]
+    ob.require_count(len(disj), 3, 'range rules in validate_player_handle')
     want = {'Local': lambda a: match_lin(a, [(exact('arg2'), 1), (exact('arg3'), -1)], lo=0) and not match_lin(a, [(exact('arg2'), 1), (exact('arg3'), -1)], lo=1),
             'Remote': lambda a: match_lin(a, [(exact('arg2'), 1), (exact('arg3'), -1)], lo=0) and not match_lin(a, [(exact('arg2'), 1), (exact('arg3'), -1)], lo=1),
             'Spectator': lambda a: match_lin(a, [(exact('arg2'), 1), (exact('arg3'), -1)], hi=-1) and not match_lin(a, [(exact('arg2'), 1), (exact('arg3'), -1)], hi=-2)}
     seen = set()
-    for s in errs:
-        g = Gv.guard(s.bb)
-        for kind, pred in want.items():
-            if guard_has_is(g, 'arg1', kind) and every_disjunct_has(g, pred) and all(len(c) == 2 for c in g):
-                seen.add(kind)
+    for kind, pred in want.items():
+        mine = [c for c in disj if guard_has_is([c], 'arg1', kind)]
+        if mine and all(len(c) == 2 and every_disjunct_has([c], pred) for c in mine):
+            seen.add(kind)
     for kind in want:
         ob.check(kind in seen, 'validate_player_handle|%s' % kind, '%s handles are rejected exactly when %s' % (kind, 'handle >= num_players' if kind != 'Spectator' else 'handle < num_players'),
                  'validate_player_handle does not reject %s handles exactly under the documented range rule' % kind, where(v))
